@@ -376,3 +376,46 @@ func vfPerType_C14(typ string) {
 		vfAssert(j == k+1, "abort-stops-traversal")
 	}
 }
+
+// VerifC14Root: the root itself is replaced from pre or post (forked), and the traversal is aborted by a
+// post callback returning false at a forked node (or not at all): Apply must return what astutil.Apply
+// returns - the replacement.
+func VerifC14Root() {
+	when := vfChoice("replaceIn", 2) // 0 pre, 1 post
+	abortAt := vfChoice("abortAt", 4) // post call index at which false is returned (3 = never)
+	// dst
+	dOld := &dst.ParenExpr{X: &dst.Ident{Name: "x"}}
+	dNew := &dst.Ident{Name: "replacement"}
+	dpost := 0
+	dres := Apply(dOld, func(c *Cursor) bool {
+		if c.Node() == dst.Node(dOld) && when == 0 {
+			c.Replace(dNew)
+		}
+		return true
+	}, func(c *Cursor) bool {
+		if c.Node() == dst.Node(dOld) && when == 1 {
+			c.Replace(dNew)
+		}
+		dpost++
+		return dpost-1 != abortAt
+	})
+	// ast
+	aOld := &ast.ParenExpr{X: &ast.Ident{Name: "x"}}
+	aNew := &ast.Ident{Name: "replacement"}
+	apost := 0
+	ares := astutil.Apply(aOld, func(c *astutil.Cursor) bool {
+		if c.Node() == ast.Node(aOld) && when == 0 {
+			c.Replace(aNew)
+		}
+		return true
+	}, func(c *astutil.Cursor) bool {
+		if c.Node() == ast.Node(aOld) && when == 1 {
+			c.Replace(aNew)
+		}
+		apost++
+		return apost-1 != abortAt
+	})
+	vfAssert(dpost == apost, "same-number-of-post-calls")
+	vfAssert((dres == dst.Node(dNew)) == (ares == ast.Node(aNew)), "returns-what-astutil-returns")
+	vfAssert((dres == dst.Node(dOld)) == (ares == ast.Node(aOld)), "returns-what-astutil-returns")
+}
